@@ -100,7 +100,15 @@ FAULTS = dict(name="faults", quick=(6, 700), thorough=(28, 4000))
 PROPS["C19"] = dict(streams=[FAULTS, LIFE], rule=PROV_RULE + "; faults stream: before BeginBlock / EndBlock a failure of one external call (client creation, connection lookup, client state, historical info, unbonding time, channel close, packet send) is armed for its n-th use; chain ids and initial heights with revisions 1 and 2; the C19 clauses are evaluated on every block of every stream",
     assumptions=PROV_ASSUME + ["failures are injected only at calls made inside launch, deletion and packet sending (a failing staking query outside those is a dead chain)", "panics inside external modules are not modelled"],
     fields=r"^(begin|end)\.res")
-PROPS["C01"]["streams"] = [VALSET, CONSUMER, EPOCH]
+ISOLATION = dict(name="isolation", quick=(4, 600), thorough=(20, 3000))
+INFRACTION = dict(name="infraction", quick=(4, 600), thorough=(20, 3000))
+PROPS["C13"]["streams"] = [LIFE, ISOLATION, INFRACTION]
+PROPS["C13"]["fields"] = r"^c\d+\.|^g\.(spawnq|removeq|infrq|client2c|chan2c)"
+PROPS["C13"]["rule"] = PROV_RULE + "; isolation stream: 13 consumers (ids 0..12, so 1/10/11/12 coexist) launched first, then key assignments, opt-ins/outs, updates, removals and epochs interleaved; infraction stream: several launched consumers scheduling parameter changes in the same block"
+PROPS["C20"]["streams"] = [LIFE, INFRACTION]
+PROPS["C05"]["streams"].append(ISOLATION)
+PROPS["C06"]["streams"].append(ISOLATION)
+PROPS["C01"]["streams"] = [VALSET, CONSUMER, EPOCH, ISOLATION]
 PROPS["C01"]["fields"] = r"^(diff|accum|cinit|applycc)\.|^cons\.(cc|pendch|cend|cinit)|^end\.(sent|valupd)|^c\d+\.(pend|valset)"
 PROPS["C01"]["rule"] += "; " + CONS_RULE
 
